@@ -19,10 +19,19 @@ struct Lit {
     int specialTag = -1;     // >= 0: special mnemonic
     bool nearMissSpecial = false;
     bool innerWs = false, hasExp = false, hasFrac = false, hasSign = false, boundary = false;
+    int customIdx = -1;       // >= 0: the instrument is initialised with a user-supplied unit table (kCustomUnits) and the suffix is entry customIdx of it
     bool decoy = false;       // a second instrument with another unit table is fed the same bytes first (fixture.hpp)
     int prelude = 0;          // 1..5: another literal, one that leaves libc's range-error state behind, is decoded first on the same context
     int digits = 0;
 };
+
+// a user-supplied unit table as an application would write it: names in their usual mixed-case spelling (the table is matched
+// case-insensitively, like the shipped all-upper-case one), units and multipliers of the application's choosing
+static const scpi_unit_def_t kCustomUnits[] = {
+    {"kHz", SCPI_UNIT_HERTZ, 1e3}, {"Hz", SCPI_UNIT_HERTZ, 1}, {"MHz", SCPI_UNIT_HERTZ, 1e6}, {"mV", SCPI_UNIT_VOLT, 1e-3}, {"uV", SCPI_UNIT_VOLT, 1e-6}, {"V", SCPI_UNIT_VOLT, 1},
+    {"dBm", SCPI_UNIT_DBM, 1}, {"ms", SCPI_UNIT_SECOND, 1e-3}, {"s", SCPI_UNIT_SECOND, 1}, {"min", SCPI_UNIT_SECOND, 60}, {"Ohm", SCPI_UNIT_OHM, 1}, {"kOhm", SCPI_UNIT_OHM, 1e3},
+    {"degC", SCPI_UNIT_CELSIUS, 1}, {"pF", SCPI_UNIT_FARAD, 1e-12}, {"a", SCPI_UNIT_AMPER, 1}, SCPI_UNITS_LIST_END};
+static const int kNCustomUnits = (int) (sizeof kCustomUnits / sizeof kCustomUnits[0]) - 1;
 
 static std::string ws(Src &s, int maxn) { std::string w; int n = (int) s.weighted({5, 3, 1, 1}); if (n > maxn) n = maxn; for (int i = 0; i < n; i++) w += s.prob(1, 4) ? '\t' : ' '; return w; }
 
@@ -132,7 +141,9 @@ static Lit decode(Src &s) {
     else if (kind == 2) {
         genDecimal(s, l, false, 0, 0);
         l.unitIdx = (int) s.range(0, (uint64_t) kNGoldenUnits - 1);
-        std::string u = kGoldenUnits[l.unitIdx].name;
+        if (s.prob(1, 5)) { l.customIdx = (int) s.range(0, (uint64_t) kNCustomUnits - 1); l.unitIdx = -1; }
+        std::string u = l.customIdx >= 0 ? kCustomUnits[l.customIdx].name : kGoldenUnits[l.unitIdx].name;
+        if (l.customIdx >= 0 && s.coin()) { l.text += ws(s, 2) + u; return l; }      // as the table spells it
         switch (s.range(0, 2)) { case 0: break; case 1: for (auto &ch : u) ch = (char) tolower(ch); break; default: for (auto &ch : u) if (s.coin()) ch = (char) tolower(ch); }
         std::string w = ws(s, 2);
         l.text += w + u;
@@ -155,16 +166,17 @@ static Lit decode(Src &s) {
     return l;
 }
 
-static std::string describe(const Lit &l) { return fmt("reader=%s literal '", kRName[l.reader]) + vis(l.text) + "' (canonical '" + l.canon + "')" + (l.prelude ? fmt(" after an out-of-range literal (prelude %d) on the same context", l.prelude) : ""); }
+static std::string describe(const Lit &l) { return fmt("reader=%s literal '", kRName[l.reader]) + vis(l.text) + "' (canonical '" + l.canon + "')" + (l.prelude ? fmt(" after an out-of-range literal (prelude %d) on the same context", l.prelude) : "") + (l.customIdx >= 0 ? fmt(" with the user-supplied unit table (entry '%s')", kCustomUnits[l.customIdx].name) : "") + (l.decoy ? " [second instrument interleaved]" : ""); }
 
 static bool g_armLit = false;
 static std::string checkLit(const Lit &l, bool *nt = nullptr) {
-    if (g_armLit) armCase("sub=lit\nreader=" + std::to_string((int) l.reader) + "\ntext=" + hexEnc(l.text) + "\nunit=" + std::to_string(l.unitIdx) + "\ncanon=" + hexEnc(l.canon) + "\nprelude=" + std::to_string(l.prelude) + "\ndecoy=" + std::to_string((int) l.decoy) + "\n");
+    if (g_armLit) armCase("sub=lit\nreader=" + std::to_string((int) l.reader) + "\ntext=" + hexEnc(l.text) + "\nunit=" + std::to_string(l.unitIdx) + "\ncanon=" + hexEnc(l.canon) + "\nprelude=" + std::to_string(l.prelude) + "\ndecoy=" + std::to_string((int) l.decoy) + "\ncustom=" + std::to_string(l.customIdx) + "\n");
     InstCfg k; k.bufLen = l.text.size() + 16; k.queueLen = 4;
     Cmd c; c.pattern = "CMD"; Reader r; r.kind = l.reader; c.script.readers.push_back(r); k.cmds.push_back(c);
     static const struct { RKind rd; const char *text; } kPrelude[] = {{R_F32, "1E-50"}, {R_F32, "3.5E38"}, {R_F64, "1e400"}, {R_F64, "-1e-400"}, {R_I64, "99999999999999999999"}};
     if (l.prelude) { Cmd p; p.pattern = "PRE"; Reader pr; pr.kind = kPrelude[l.prelude - 1].rd; p.script.readers.push_back(pr); k.cmds.push_back(p); k.bufLen += 32; }
     k.decoy = l.decoy;
+    if (l.customIdx >= 0) k.units = kCustomUnits;
     errno = 0;      // a case does not inherit libc state from the case before it; what precedes the literal is part of the case
     Inst I(k);
     if (l.prelude) {
@@ -173,7 +185,7 @@ static std::string checkLit(const Lit &l, bool *nt = nullptr) {
         I.drainErrors(); I.trace.clear(); I.errors.clear();
     }
     bool ret = I.input("CMD " + l.text + "\n");
-    if (nt) *nt = l.hasExp || l.hasFrac || l.hasSign || l.innerWs || l.unitIdx >= 0 || l.base != 10 || l.digits > 15 || l.specialTag >= 0;
+    if (nt) *nt = l.hasExp || l.hasFrac || l.hasSign || l.innerWs || l.unitIdx >= 0 || l.customIdx >= 0 || l.base != 10 || l.digits > 15 || l.specialTag >= 0;
     if (!I.invariant.empty()) return I.invariant + ": " + describe(l);
     std::string vline;
     for (auto &x : I.trace) if (x.compare(0, 2, "V:") == 0) vline = x;
@@ -197,6 +209,7 @@ static std::string checkLit(const Lit &l, bool *nt = nullptr) {
         case R_U64: exp = fmt("%llu", (unsigned long long) l.ival); break;
         case R_NUM:
             if (l.specialTag >= 0) exp = fmt("special:%d:base10", l.specialTag);
+            else if (l.customIdx >= 0) exp = fmt("%s:unit%d:base10", bitsD(dv * kCustomUnits[l.customIdx].mult).c_str(), (int) kCustomUnits[l.customIdx].unit);
             else if (l.unitIdx >= 0) exp = fmt("%s:unit%d:base10", bitsD(dv * kGoldenUnits[l.unitIdx].mult).c_str(), kGoldenUnits[l.unitIdx].unit);
             else exp = fmt("%s:unit0:base%d", bitsD(l.base == 10 ? dv : (double) (uint64_t) l.ival).c_str(), l.base);
             break;
@@ -215,6 +228,7 @@ static std::string body(Src &s, Ev &ev) {
     if (l.innerWs) ev.label("white-space-inside-number");
     if (l.prelude) ev.label("after-out-of-range-literal");
     if (l.decoy) ev.label("with-second-instrument-interleaved");
+    if (l.customIdx >= 0) ev.label("user-supplied-unit-table");
     if (l.boundary) ev.label(l.reader == R_F32 ? "float-rounding-boundary" : "double-rounding-boundary");
     if (nt) ev.nt(hashStr(std::to_string((int) l.reader) + l.text));
     if (nt && ev.wantSample()) ev.sample(describe(l));
@@ -249,7 +263,7 @@ static void runTable(const Opt &o, Ev &ev) {
 int main(int argc, char **argv) {
     std::vector<Sub> subs;
     auto replayLit = [](const Replay &r) {
-        Lit l; l.reader = (RKind) r.num("reader", R_NUM); l.text = hexDec(r.get("text")); l.canon = hexDec(r.get("canon")); l.unitIdx = (int) r.num("unit", -1); l.prelude = (int) r.num("prelude", 0); l.decoy = r.num("decoy", 0) != 0;
+        Lit l; l.reader = (RKind) r.num("reader", R_NUM); l.text = hexDec(r.get("text")); l.canon = hexDec(r.get("canon")); l.unitIdx = (int) r.num("unit", -1); l.prelude = (int) r.num("prelude", 0); l.decoy = r.num("decoy", 0) != 0; l.customIdx = (int) r.num("custom", -1);
         if (l.canon.empty()) return std::string("replay of a crash case: run it through the rand sub-check (no expected value recorded)");
         return checkLit(l);
     };
